@@ -14,7 +14,7 @@ META = {
                  "JSON file) and the database-backed store (keyed table + AuthCache) and of setPermission/GetPermission(s) "
                  "against one abstract user map; vm_compute correspondence of both models with both real stores on the "
                  "same histories (temp JSON file; SQLite) with restarts in the middle; Python user-map oracle on the real answers",
-    "text": "C31_both_refine_spec_partial: for every history of write, delete, read, list, get-permissions, has-permission, "
+    "text": "C31_both_refine_spec_partial: for every capacity of the AuthCache and every history of write, delete, read, list, get-permissions, has-permission, "
             "set-permission, flush, restart (close + fresh cache + reopen) and cache-expiry, both stores give exactly the "
             "answers of one abstract user map in which flush/restart/cache-expiry do nothing; hence "
             "C31_stores_agree_partial (identical answers) and C31_reopen_partial (answers after a restart inserted at any "
@@ -101,6 +101,10 @@ def gen_history(rng, may_delete_admin):
     return ops
 
 
+# AuthCache capacity of the corpus histories (0 = default 1000), by position
+CORPUS_CAPS = [0, 0, 0, 0, 0, 0, 2, 1, 3]
+
+
 def corpus():
     def user(n, perms, nilp=False, pk=""):
         return {"name": n, "id": IDS[0], "password": "pw1", "permissions": perms, "nilperms": nilp, "passkeys": pk, "last": ""}
@@ -119,12 +123,26 @@ def corpus():
         # one mutation between two clean points (dirty flag)
         [{"op": "write", "user": user("bob", ["logon"])}, {"op": "flush"}, {"op": "delete", "name": "bob"}, {"op": "reopen"},
          {"op": "read", "name": "bob"}, {"op": "list", "mask": False}],
-        # cache in front of the table, update vs insert, case-sensitive names
+        # cache in front of the table, update vs insert, case-sensitive names  (this one stays at index 5)
         [{"op": "write", "user": user("bob", ["a", "b", "c"])}, {"op": "read", "name": "bob"}, {"op": "read", "name": "Bob"},
          {"op": "setperm", "name": "bob", "priv": "A", "on": False}, {"op": "cachedrop"}, {"op": "perms", "name": "bob"},
          {"op": "write", "user": user("bob", ["q"])}, {"op": "haspriv", "name": "bob", "priv": "Q"}, {"op": "delete", "name": "bob"},
          {"op": "read", "name": "bob"}, {"op": "setperm", "name": "bob", "priv": "a", "on": True}, {"op": "write", "user": user("", ["q"])},
          {"op": "flush"}, {"op": "reopen"}, {"op": "list", "mask": False}],
+        # AuthCache at capacity (2, 1, 3) when a cached user is updated: the replacing caches.Add must not be
+        # rejected (seeded change C31-4), and a rejected NEW key must simply stay uncached
+        [{"op": "write", "user": user("bob", ["logon"])}, {"op": "write", "user": user("carol", ["logon"])},
+         {"op": "write", "user": user("bob", ["logon", "x"])}, {"op": "read", "name": "bob"}, {"op": "perms", "name": "bob"},
+         {"op": "setperm", "name": "carol", "priv": "y", "on": True}, {"op": "perms", "name": "carol"}, {"op": "read", "name": "admin"},
+         {"op": "reopen"}, {"op": "read", "name": "bob"}, {"op": "list", "mask": False}],
+        [{"op": "read", "name": "admin"}, {"op": "write", "user": user("admin", ["ego.root"])}, {"op": "read", "name": "admin"},
+         {"op": "write", "user": user("bob", ["a"])}, {"op": "read", "name": "bob"}, {"op": "setperm", "name": "admin", "priv": "z", "on": True},
+         {"op": "perms", "name": "admin"}, {"op": "haspriv", "name": "admin", "priv": "Z"}, {"op": "list", "mask": False}],
+        [{"op": "write", "user": user("bob", ["a"])}, {"op": "write", "user": user("carol", ["b"])}, {"op": "read", "name": "admin"},
+         {"op": "write", "user": user("Bob", ["c"])}, {"op": "read", "name": "Bob"}, {"op": "write", "user": user("carol", ["b", "c"])},
+         {"op": "perms", "name": "carol"}, {"op": "delete", "name": "bob"}, {"op": "write", "user": user("Bob", [])},
+         {"op": "read", "name": "Bob"}, {"op": "setperm", "name": "Bob", "priv": "q", "on": True}, {"op": "perms", "name": "Bob"},
+         {"op": "list", "mask": False}],
     ]
 
 
@@ -272,11 +290,11 @@ def cans(a):
 PRELUDE = """From Users Require Import Model.
 From Common Require Import Base.
 Open Scope N_scope.
-Definition case := (list op * list ans * list ans)%type.
+Definition case := (nat * list op * list ans * list ans)%type.
 Fixpoint bad (f : case -> bool) (i : nat) (l : list case) : list nat :=
   match l with [] => [] | c :: r => (if f c then [] else [i]) ++ bad f (S i) r end.
-Definition file_ok (c : case) := answers_eqb (file_answers demo_admin false (fst (fst c))) (snd (fst c)).
-Definition db_ok (c : case) := answers_eqb (db_answers demo_admin false (fst (fst c))) (snd c).
+Definition file_ok (c : case) := answers_eqb (file_answers demo_admin false (snd (fst (fst c)))) (snd (fst c)).
+Definition db_ok (c : case) := answers_eqb (db_answers demo_admin false (fst (fst (fst c))) (snd (fst (fst c)))) (snd c).
 """
 
 
@@ -285,13 +303,13 @@ def run(ck):
     ck.cov["rule"] = ("histories of 6-16 operations over 7 user names (case variants, empty, quote, non-ASCII) on both real "
                       "stores: write (nil / empty / 1-3 permissions, passkeys JSON, last-token time), delete, read, list "
                       "(masked or not), GetPermissions, GetPermission, setPermission (mixed-case privilege names), flush, "
-                      "restart, cache purge; every history ends with a restart and a listing; 30% are persistence patterns (clean "
+                      "restart, cache purge; half of the generated histories run with an AuthCache capacity of 1-3 entries; every history ends with a restart and a listing; 30% are persistence patterns (clean "
                       "store, one mutation, restart, observe); 12% of the others may "
                       "delete the default user; fixed corpus first. distinct_nontrivial = distinct (op, answer) pairs "
                       "observed after at least one restart on the real stores")
     ck.assume("the JSON user file and the SQLite credentials table bring every user record back unchanged except that the "
               "file drops an empty permission list (modelled as persist) - checked by the correspondence run only",
-              "AuthCache entries do not expire during a history other than by the modelled purge (cache drop / restart)",
+              "AuthCache entries do not expire during a history other than by the modelled purge (cache drop / restart); its capacity is the model parameter cap (theorems hold for every cap)",
               "sequential use of one service")
     ck.trusted("harness/C31/c31_test.go (in-package overlay)", "props/C31.py generator, projections, Python user-map oracle",
                "correspondence evaluated by vm_compute in a generated cases file")
@@ -315,17 +333,21 @@ def run(ck):
                      replay={"log": binp[-3000:]}, found_input=False)
         return
     hs = corpus()
-    n = 90 if quick else 1500
+    caps = list(CORPUS_CAPS) + [0] * (len(hs) - len(CORPUS_CAPS))
+    n = 80 if quick else 1500
     while len(hs) < n:
         hs.append(gen_persist_history(ck.rng) if ck.rng.random() < 0.3 else gen_history(ck.rng, ck.rng.random() < 0.12))
+        # half of the histories run with an AuthCache of 1-3 entries (ego.server.cache.maxsize), so that it is full
+        caps.append(ck.rng.choice([1, 2, 2, 3]) if ck.rng.random() < 0.5 else 0)
     if ck.replay_file:
         rp = json.load(open(ck.replay_file))["replay"]
         hs = rp.get("histories") or hs[:5]
+        caps = (rp.get("caps") or [0] * len(hs))[:len(hs)]
     inp = os.path.join(ck.work, "in.jsonl")
     outp = os.path.join(ck.work, "out.jsonl")
     with open(inp, "w") as f:
         for i, h in enumerate(hs):
-            f.write(json.dumps({"id": i, "ops": h}) + "\n")
+            f.write(json.dumps({"id": i, "cap": caps[i], "ops": h}) + "\n")
     env = {"VERIF_IN": inp, "VERIF_OUT": outp, "HOME": os.path.join(ck.work, "home"), "TMPDIR": os.path.join(ck.work, "tmp")}
     for d in (env["HOME"], env["TMPDIR"]):
         os.makedirs(d, exist_ok=True)
@@ -344,7 +366,7 @@ def run(ck):
     # ---- property oracle on both implementations: one abstract user map, restarts do nothing
     nontriv = set()
     nops = 0
-    dist = {"histories": len(hs), "ops": 0, "restarts": 0, "histories_deleting_default_user": 0, "setperm": 0,
+    dist = {"histories": len(hs), "histories_with_small_authcache": sum(1 for c in caps if c), "ops": 0, "restarts": 0, "histories_deleting_default_user": 0, "setperm": 0,
             "writes_with_nil_or_empty_perms": 0}
     bad_hist = set()
     real = {}
@@ -378,9 +400,11 @@ def run(ck):
             else:
                 sig = "not-a-user-map"
             ck.violation(sig, "history %d op %d (%s): the %s store answered %s, one user map answers %s (other store: %s)" % (
-                i, j, json.dumps({k: v for k, v in h[j].items() if k != "_pw"}), which, json.dumps(got[j])[:300],
+                i, j, json.dumps({k: v for k, v in h[j].items() if k != "_pw"}) + (" AuthCache capacity %d" % caps[i] if caps[i] else ""),
+                which, json.dumps(got[j])[:300],
                 json.dumps(want[j])[:300], json.dumps((da if which == "file" else fa)[j])[:200]),
-                replay={"histories": [[{k: v for k, v in o.items() if k != "_pw"} for o in h[:j + 1]]], "op_index": j, "store": which})
+                replay={"histories": [[{k: v for k, v in o.items() if k != "_pw"} for o in h[:j + 1]]], "caps": [caps[i]],
+                        "op_index": j, "store": which})
     dist["ops"] = nops
     ck.cov["evaluations"] = nops * 2
     ck.cov["distinct_nontrivial"] = len(nontriv)
@@ -402,7 +426,7 @@ def run(ck):
     cs = []
     for i, h in enumerate(hs):
         fa, da = real[i]
-        cs.append("([%s],\n [%s],\n [%s])" % (";".join(cop(o) for o in h), ";".join(cans(a) for a in fa), ";".join(cans(a) for a in da)))
+        cs.append("(%d%%nat, [%s],\n [%s],\n [%s])" % (caps[i] or 1000, ";".join(cop(o) for o in h), ";".join(cans(a) for a in fa), ";".join(cans(a) for a in da)))
     lines = [PRELUDE] + ["Definition %s : str := %s." % (nm, vf.vstr(st)) for st, nm in STRTAB.items()]
     lines.append("Definition cases : list case := [")
     lines.append(";\n".join(cs))
@@ -420,4 +444,5 @@ def run(ck):
             if i in bad_hist and unknown:
                 continue
             ck.violation("corr-" + which, "the %s-store model and the real %s store disagree on history %d" % (which, which, i),
-                         replay={"histories": [[{k: v for k, v in o.items() if k != "_pw"} for o in hs[i]]]}, found_input=False)
+                         replay={"histories": [[{k: v for k, v in o.items() if k != "_pw"} for o in hs[i]]], "caps": [caps[i]]},
+                         found_input=False)
